@@ -105,7 +105,8 @@ def generate(seed, tier):
         wide_run = {"sheet": min(sheet, len(sheets)) - 1, "row": rng.randrange(len(target)), "at": rng.randint(0, 8),
                     "cell": rng.choice(["", "", "x"]), "count": rng.choice([1023, 1025, 2000, 16384])}
     return {"io": simfs.IoConfig.draw(swarm), "sheets": sheets, "features": features, "sheet": sheet, "fault": fault,
-            "earlier_document_at_same_path": earlier, "wide_run": wide_run}
+            "earlier_document_at_same_path": earlier, "wide_run": wide_run,
+            "source": swarm.choice(["path", "path", "stream"]), "stream_read_before": swarm.random() < 0.5}
 
 
 def expanded_sheets(scenario):
@@ -276,7 +277,18 @@ def execute(scenario):
         result.probe("path-rewritten-between-two-reads")
     fs.store("data.ods", data)
     with simfs.Seams(fs):
-        status, value = lib.call(lambda: lib.collect_rows(rowio.ods_rows("data.ods", sheet)))
+        source = "data.ods"
+        if scenario.get("source") == "stream":
+            # the document is handed over as a binary stream the caller has opened; the same stream object may
+            # already have been used to read (another sheet of) the document
+            source = fs.open_binary("data.ods")
+            result.probe("source:stream")
+            if scenario.get("stream_read_before"):
+                lib.call(lambda: list(rowio.ods_rows(source, 1)))
+                result.probe("same-stream-read-before")
+        status, value = lib.call(lambda: lib.collect_rows(rowio.ods_rows(source, sheet)))
+        if source != "data.ods" and source.closed:
+            raise core.Violation("caller-stream-closed-by-cutplace", [], "the stream passed in as data source is closed after the read")
     history.add("client", "ods_rows", {"sheet": sheet, "status": status,
                                        "value": value if status == "ok" else lib.error_summary(value)})
     wanted = logical[sheet - 1] if sheet <= len(logical) else None
@@ -350,6 +362,10 @@ def _culprits(scenario, wanted, got, used):
 def candidates(scenario):
     if scenario.get("sweep"):
         return
+    if scenario.get("source") == "stream":
+        yield lib.with_value(scenario, ["source"], "path")
+        if scenario.get("stream_read_before"):
+            yield lib.with_value(scenario, ["stream_read_before"], False)
     if scenario.get("wide_run"):
         yield lib.with_value(scenario, ["wide_run"], None)
         if scenario["wide_run"]["count"] > 1025:
